@@ -183,7 +183,65 @@ pub fn oracle(_seed: u64, tier: &str) -> Vec<Report> {
         if r.evaluations % 97 == 1 { r.sample(serde_json::json!({"family": f.name, "dialect": dn, "limit": limit, "depth": n, "outcome": out})); }
     }
     r.distinct_nontrivial = distinct.len() as u64;
-    vec![r]
+    vec![r, chains(tier)]
+}
+
+/// "for all m: m sibling constructs of depth <= L/2 parse Ok": the iterative constructs of the grammar
+/// (operator, set-operation, join, postfix chains, flat lists; the families of the C02 deep oracle)
+/// with m up to 10^5 must PARSE without exhausting the stack and without the limit error; what
+/// happens to the resulting left-deep tree afterwards (print, clone, drop) is C02's business.
+fn chains(tier: &str) -> Report {
+    let mut r = Report::new("C03", "oracle.chains", "every iterative construct (chain/* and siblings/* families of the C02 deep oracle) at m in {20000, 100000} (thorough: also 300000) elements, default limit and limit 8, in child processes: the parse must return normally (no stack overflow) and must not report the recursion limit; non-trivial = distinct (family, outcome class)");
+    r.exhaustive = true;
+    let fams: Vec<_> = crate::c02::deep_families().into_iter().filter(|f| f.name.starts_with("chain/") || f.name.starts_with("siblings/")).collect();
+    let sizes: Vec<usize> = if tier == "thorough" { vec![20_000, 100_000, 300_000] } else { vec![20_000, 100_000] };
+    let mut jobs = vec![];
+    for (fi, _) in fams.iter().enumerate() {
+        for &n in &sizes {
+            jobs.push((fi, n, None::<usize>));
+        }
+        jobs.push((fi, 3000, Some(8usize)));
+    }
+    let results = std::sync::Mutex::new(vec![String::new(); jobs.len()]);
+    let next = std::sync::atomic::AtomicUsize::new(0);
+    std::thread::scope(|s| {
+        for _ in 0..12 {
+            s.spawn(|| loop {
+                let i = next.fetch_add(1, std::sync::atomic::Ordering::SeqCst);
+                if i >= jobs.len() { break; }
+                let (fi, n, lim) = jobs[i];
+                let exe = std::env::current_exe().unwrap();
+                let out = Command::new(exe).args(["deep-child", fams[fi].name, &n.to_string(), &lim.map(|l| l.to_string()).unwrap_or("-".into()), "parse-only"]).output().expect("spawn");
+                let so = String::from_utf8_lossy(&out.stdout).to_string();
+                let se = String::from_utf8_lossy(&out.stderr).to_string();
+                let first = so.lines().next().unwrap_or("").to_string();
+                let res = if !first.is_empty() { first } else if se.contains("overflowed its stack") { "stack-overflow in parse".to_string() } else { format!("abnormal {}", trunc(se.trim(), 80)) };
+                results.lock().unwrap()[i] = res;
+            });
+        }
+    });
+    let results = results.into_inner().unwrap();
+    let mut distinct = std::collections::BTreeSet::new();
+    for (i, (fi, n, lim)) in jobs.iter().enumerate() {
+        let f = &fams[*fi];
+        let out = &results[i];
+        r.evaluations += 1;
+        let o = Opts { unescape: true, trailing: None, limit: *lim };
+        let input = format!("{}({})", f.name, n);
+        let class = out.split(' ').next().unwrap_or("").to_string();
+        distinct.insert((f.name, class.clone()));
+        r.count(&format!("outcome/{class}"));
+        if class == "stack-overflow" || class == "abnormal" {
+            r.fail(format!("{}/{class}", f.name), f.dialect, o, &input, out.clone());
+        } else if out.contains("recursion limit") || out.contains("Recursion limit") {
+            r.fail(format!("{}/siblings-hit-limit", f.name), f.dialect, o, &input, out.clone());
+        } else if class == "panic" {
+            r.fail(format!("{}/panic", f.name), f.dialect, o, &input, out.clone());
+        }
+        if i % 11 == 0 { r.sample(serde_json::json!({"family": f.name, "m": n, "limit": lim, "outcome": out})); }
+    }
+    r.distinct_nontrivial = distinct.len() as u64;
+    r
 }
 
 fn field(s: &str, key: &str) -> Option<u64> {
